@@ -153,6 +153,15 @@ def build_templates(model, style=0, share_nodes=True, prefix="", dict_vars=False
     nodes = {}
     for label, node in model["nodes"].items():
         key = (tuple(node["ops"]), tuple(sorted(node.get("over", {}).items())))
+        if share_nodes == "derived" and key in node_tpls:
+            # a DISTINCT NodeTemplate object derived from the first one (shares nothing a user can see)
+            nodes[label] = node_tpls[key].update_template(name=f"{prefix}nt_{label}")
+            continue
+        if share_nodes == "common-dict" and key in node_tpls:
+            # a distinct NodeTemplate built from the very same operators -> overrides dictionaries
+            first = node_tpls[key]
+            nodes[label] = NodeTemplate(name=f"{prefix}nt_{label}", operators=dict(first.operators), path=None)
+            continue
         if share_nodes and key in node_tpls:
             nodes[label] = node_tpls[key]
             continue
@@ -320,7 +329,9 @@ def spec_rhs(model, y, params=None, hist=None, t=0.0, edge_now=None, ext=None):
                             # edge template: the (algebraic) edge operator is evaluated per edge on its own source
                             eop = d["_op"]
                             sv = edge_now(src, d, val_of) if edge_now is not None else val_of(src)
-                            eenv = {v_: (sv if vt_ == "input" else (d.get("eover") or {}).get(v_, dflt)) for v_, (vt_, dflt) in eop["vars"].items()}
+                            post = d.get("post") or {}     # inputs of a coupling edge that read a variable of the TARGET unit
+                            eenv = {v_: ((val_of(post[v_]) if v_ in post else sv) if vt_ == "input" else (d.get("eover") or {}).get(v_, dflt))
+                                    for v_, (vt_, dflt) in eop["vars"].items()}
                             outv = None
                             for l_, k_, tr_ in eop["eqs"]:
                                 eenv[l_] = ev(tr_, eenv)
